@@ -2,5 +2,10 @@ package main
 
 import (
 	_ "verifmc/checks/alloc"
+	_ "verifmc/checks/c11"
+	_ "verifmc/checks/c12"
+	_ "verifmc/checks/c13"
+	_ "verifmc/checks/c14"
+	_ "verifmc/checks/c15"
 	_ "verifmc/checks/c20"
 )
